@@ -24,7 +24,14 @@ var mixListAlts = [][]any{nil, {"x"}, {"y"}, {"x", "y"}, {"y", "x"}, {"x", "x"}}
 var mixTagAlts = [][]string{nil, {"tagOne"}, {"tagTwo"}, {"tagOne", "tagTwo"}, {"tagTwo", "tagOne"}}
 var mixSecAlts = [][]any{nil, {J{"k": []any{}}}, {J{"j": []any{"s"}}}, {J{"k": []any{}}, J{"j": []any{"s"}}}, {J{}}}
 
+// mixSame: when set, the values put under a key are identical in every document (two documents bringing the very same
+// definition / response / parameter still collide on the key).
+var mixSame bool
+
 func mixValue(section, key, origin string) any {
+	if mixSame {
+		origin = "same"
+	}
 	switch section {
 	case "paths":
 		return J{"get": J{"operationId": origin + strings.ReplaceAll(key, "/", "_"), "responses": J{"200": J{"description": origin}}}}
@@ -133,7 +140,11 @@ func mixDoc(x *mcx.Exec, tag string) J {
 	if v := mixTagAlts[ch(len(mixTagAlts), "tags")]; v != nil {
 		var tags []any
 		for _, t := range v {
-			tags = append(tags, J{"name": t, "description": tag})
+			td := tag
+			if mixSame {
+				td = "same"
+			}
+			tags = append(tags, J{"name": t, "description": td})
 		}
 		doc["tags"] = tags
 	}
@@ -149,6 +160,8 @@ type mixCase struct {
 }
 
 func mixGen(x *mcx.Exec) *mixCase {
+	mixSame = x.Choose(mcx.INPUT, 2, "identical values under colliding keys") == 1
+	defer func() { mixSame = false }()
 	c := &mixCase{Primary: mustJSON(mixDoc(x, "P"))}
 	// number of mixins: default 2; alternatives 1, 3, 0
 	n := []int{2, 1, 3, 0}[x.Choose(mcx.INPUT, 4, "mixins")]
@@ -537,7 +550,8 @@ func init() {
 		})
 		// full presence tables per keyed section over primary + 3 mixins
 		for _, sec := range mixSections {
-			for mask := 0; mask < 1<<8; mask++ {
+			for mask := 0; mask < 1<<9; mask++ {
+				mixSame = mask&(1<<8) != 0 // second half of the table: identical values in every document
 				docs := make([]J, 4)
 				for d := 0; d < 4; d++ {
 					tag := "P"
@@ -562,6 +576,7 @@ func init() {
 				runMix(c, "c17", &k, &mixCase{Primary: mustJSON(docs[0]), Mixins: []string{mustJSON(docs[1]), mustJSON(docs[2]), mustJSON(docs[3])}}, nil, c17Check)
 			}
 		}
+		mixSame = false
 		// optional parts: every presence pattern on the primary and on one mixin
 		parts := func(mask int, tag string) J {
 			d := J{"swagger": "2.0"}
